@@ -38,6 +38,7 @@ import (
 //	        randomised map order would make schedules irreproducible); outside it
 //	        the native order is used. The file must import "sync" (apply after
 //	        vsync so that sync is package vsync). Same-line splice.
+//	fakec   spec "fakec:<pkgdir>=<support dir>": un-cgo a package (see rewriteFakeC).
 func rewritePkg(ov *overlay, gen, kind, pkg string) {
 	switch kind {
 	case "vsync":
@@ -53,6 +54,12 @@ func rewritePkg(ov *overlay, gen, kind, pkg string) {
 		rewriteRanges(ov, gen, kv[0], strings.Split(kv[1], "+"))
 	case "vorder":
 		rewriteVorder(ov, gen, pkg)
+	case "fakec":
+		kv := strings.SplitN(pkg, "=", 2)
+		if len(kv) != 2 {
+			die("fakec needs <pkgdir>=<support dir relative to the verif root>")
+		}
+		rewriteFakeC(ov, gen, kv[0], kv[1])
 	default:
 		die("rewrite %q not implemented", kind)
 	}
@@ -355,4 +362,208 @@ func rewriteVorder(ov *overlay, gen, pkg string) {
 		os.WriteFile(cachePath, cb, 0o644)
 	}
 	fmt.Fprintf(os.Stderr, "mkoverlay: vorder %s: %d map range sites rewritten, %d range sites left native\n", pkg, nsites, len(reverted))
+}
+
+// rewriteFakeC ("fakec:<pkgdir>=<support dir>") turns the cgo package <pkgdir>
+// into a pure-Go package that still consists of its real Go sources:
+//
+//   - every non-test .go file of the package that is not listed under "drop" in
+//     <support dir>/FAKEC.json is put (back) into the build; in the files that
+//     `import "C"` the import is blanked out and every selector `C.xyz` becomes
+//     the package-local identifier `C_xyz` (a one-byte splice, so positions in
+//     the copy equal those of the original). Imports listed under
+//     "drop_imports" are blanked out as well (packages that are cgo themselves;
+//     the support files define a package-level variable of the same name);
+//   - *.c / *.h and the dropped files stay deleted;
+//   - overlay-added files listed under "remove_added" (the stub VM) are removed;
+//   - every .go file of <support dir> is added to the package: they bind the
+//     C_xyz identifiers to a pure-Go fake and stub what was dropped.
+//
+// The copy is taken from the mutant copy of a file if the mutant patch touched
+// it, so the rewrite composes with --mutant. Guards and all other logic of the
+// rewritten files are compiled from the repo text; nothing is re-implemented.
+func rewriteFakeC(ov *overlay, gen, pkg, support string) {
+	sdir := filepath.Join(*verif, support)
+	var cfg struct {
+		Drop        []string `json:"drop"`
+		DropImports []string `json:"drop_imports"`
+		RemoveAdded []string `json:"remove_added"`
+	}
+	cb, err := os.ReadFile(filepath.Join(sdir, "FAKEC.json"))
+	if err != nil {
+		die("fakec: %v", err)
+	}
+	if err := json.Unmarshal(cb, &cfg); err != nil {
+		die("fakec: %s/FAKEC.json: %v", sdir, err)
+	}
+	drop := map[string]bool{}
+	for _, d := range cfg.Drop {
+		drop[d] = true
+	}
+	dropImp := map[string]bool{}
+	for _, d := range cfg.DropImports {
+		dropImp[d] = true
+	}
+	dir := filepath.Join(*repo, pkg)
+	ents, err := os.ReadDir(dir)
+	if err != nil {
+		die("fakec: %v", err)
+	}
+	nfiles, nsel := 0, 0
+	pkgName := ""
+	var expNames []string
+	expParams := map[string][]string{}
+	expFile := map[string]string{}
+	for _, e := range ents {
+		n := e.Name()
+		if e.IsDir() || !strings.HasSuffix(n, ".go") || strings.HasSuffix(n, "_test.go") {
+			continue
+		}
+		rel := filepath.Join(pkg, n)
+		abs := filepath.Join(*repo, rel)
+		if drop[n] {
+			ov.Replace[abs] = ""
+			continue
+		}
+		// what currently stands for the file: an earlier transform's copy, the
+		// mutant copy (the package-contract step maps cgo files to "" and thereby
+		// forgets the mutant mapping), or the repo file
+		from := abs
+		if r, ok := ov.Replace[abs]; ok && r != "" {
+			from = r
+		} else if m := filepath.Join(gen, "mutant", rel); fileExists(m) {
+			from = m
+		}
+		b, err := os.ReadFile(from)
+		must(err)
+		fset := token.NewFileSet()
+		f, err := parser.ParseFile(fset, from, b, parser.ParseComments)
+		if err != nil {
+			die("fakec: parse %s: %v", from, err)
+		}
+		off := func(p token.Pos) int { return fset.Position(p).Offset }
+		blank := func(lo, hi int) {
+			for i := lo; i < hi; i++ {
+				if b[i] != '\n' {
+					b[i] = ' '
+				}
+			}
+		}
+		changed := false
+		for _, d := range f.Decls {
+			gd, ok := d.(*ast.GenDecl)
+			if !ok || gd.Tok != token.IMPORT {
+				continue
+			}
+			left := 0
+			for _, sp := range gd.Specs {
+				is := sp.(*ast.ImportSpec)
+				p, _ := strconv.Unquote(is.Path.Value)
+				if p == "C" || dropImp[p] {
+					blank(off(is.Pos()), off(is.End()))
+					changed = true
+				} else {
+					left++
+				}
+			}
+			if left == 0 {
+				blank(off(gd.Pos()), off(gd.End()))
+			}
+		}
+		ast.Inspect(f, func(nd ast.Node) bool {
+			se, ok := nd.(*ast.SelectorExpr)
+			if !ok {
+				return true
+			}
+			if id, ok := se.X.(*ast.Ident); ok && id.Name == "C" && id.Obj == nil {
+				dot := off(id.End())
+				if b[dot] != '.' || off(se.Sel.Pos()) != dot+1 {
+					die("fakec: %s: unexpected layout of a C selector at %v", rel, fset.Position(se.Pos()))
+				}
+				b[dot] = '_'
+				nsel++
+				changed = true
+			}
+			return true
+		})
+		// the //export-ed functions (the host API called from C), with their
+		// parameter lists as written in the (rewritten) source
+		pkgName = f.Name.Name
+		for _, d := range f.Decls {
+			fd, ok := d.(*ast.FuncDecl)
+			if !ok || fd.Doc == nil || fd.Recv != nil {
+				continue
+			}
+			exported := false
+			for _, c := range fd.Doc.List {
+				if fl := strings.Fields(c.Text); len(fl) == 2 && fl[0] == "//export" && fl[1] == fd.Name.Name {
+					exported = true
+				}
+			}
+			if !exported {
+				continue
+			}
+			var ps []string
+			for _, fld := range fd.Type.Params.List {
+				ty := string(b[off(fld.Type.Pos()):off(fld.Type.End())])
+				if len(fld.Names) == 0 {
+					ps = append(ps, "_ "+ty)
+				}
+				for _, nm := range fld.Names {
+					ps = append(ps, nm.Name+" "+ty)
+				}
+			}
+			expNames = append(expNames, fd.Name.Name)
+			expParams[fd.Name.Name] = ps
+			expFile[fd.Name.Name] = n
+		}
+		if !changed {
+			// a pure Go file: (re-)admit it as it is
+			if from == abs {
+				delete(ov.Replace, abs)
+			} else {
+				ov.Replace[abs] = from
+			}
+			continue
+		}
+		dst := filepath.Join(gen, "rewrite", rel)
+		must(os.MkdirAll(filepath.Dir(dst), 0o755))
+		must(os.WriteFile(dst, b, 0o644))
+		ov.Replace[abs] = dst
+		nfiles++
+	}
+	if nfiles == 0 {
+		die("fakec: no file of %s imports \"C\" (wrong package dir?)", pkg)
+	}
+	for _, n := range cfg.RemoveAdded {
+		delete(ov.Replace, filepath.Join(dir, n))
+	}
+	addDir(ov, sdir, dir)
+	// table of the exported callbacks, regenerated from the sources on every run
+	sort.Strings(expNames)
+	var tb bytes.Buffer
+	fmt.Fprintf(&tb, "//go:build verif\n\n// Code generated by mkoverlay (fakec) from the //export comments. DO NOT EDIT.\npackage %s\n\n", pkgName)
+	fmt.Fprintf(&tb, "var verifExported = map[string]interface{}{\n")
+	for _, nm := range expNames {
+		fmt.Fprintf(&tb, "\t%q: %s,\n", nm, nm)
+	}
+	fmt.Fprintf(&tb, "}\n\nvar verifExportedParams = map[string][]string{\n")
+	for _, nm := range expNames {
+		fmt.Fprintf(&tb, "\t%q: {%q", nm, "@"+expFile[nm])
+		for _, p := range expParams[nm] {
+			fmt.Fprintf(&tb, ", %q", p)
+		}
+		fmt.Fprintf(&tb, "},\n")
+	}
+	fmt.Fprintf(&tb, "}\n")
+	tdst := filepath.Join(gen, "rewrite", pkg, "zz_fakec_exports_verif.go")
+	must(os.MkdirAll(filepath.Dir(tdst), 0o755))
+	must(os.WriteFile(tdst, tb.Bytes(), 0o644))
+	ov.Replace[filepath.Join(dir, "zz_fakec_exports_verif.go")] = tdst
+	fmt.Fprintf(os.Stderr, "mkoverlay: fakec %s: %d cgo files rewritten (%d C selectors), %d exported callbacks\n", pkg, nfiles, nsel, len(expNames))
+}
+
+func fileExists(p string) bool {
+	st, err := os.Stat(p)
+	return err == nil && !st.IsDir()
 }
